@@ -15,6 +15,7 @@ alloc_linear_decodeT alloc_linear_stringIter alloc_linear_bytes alloc_linear_tok
 repeatN_ok_count work_linear_accessors work_linear_decodeT work_linear_skip work_linear_tokens
 arrayvec_drops_once arrayvec_each_once""".split()]   # see lean/Minicbor/Thm/C02.lean
 PACKAGES = ["hcore", "hserde"]
+DEBUG_TWINS = True
 ACCS = ["bool", "u8", "u16", "u32", "u64", "i8", "i16", "i32", "i64", "int", "f16", "f32", "f64", "char", "bytes", "str",
         "bytes_iter", "str_iter", "array", "map", "tag", "null", "undefined", "simple", "datatype", "skip"]
 RULE = ("every decoding entry point on hostile input: (a) every byte string of length <= 2 (quick: second byte stride 3; thorough: all, plus 3-byte samples) x 26 accessors; "
